@@ -23,8 +23,13 @@ package c11
 // compared with the model as well.
 
 import (
+	"encoding/json"
 	"fmt"
 	"math/rand"
+	"net/http"
+	"net/http/httptest"
+	"strconv"
+	"strings"
 	"sync"
 	"time"
 
@@ -51,14 +56,22 @@ const (
 )
 
 func init() {
-	vkit.Register("coord", vkit.N{Quick: 120, Thorough: 2400}, genCoordCase, runCoordCase)
+	vkit.Register("coord", vkit.N{Quick: 240, Thorough: 4000}, genCoordCase, runCoordCase)
 }
 
 // AdminOp is one scheduler admin operation.
 type AdminOp struct {
-	Op    string `json:"op"` // evict | grant | add | remove
+	// evict | grant   Handler.AddEvictLeaderScheduler / AddGrantLeaderScheduler(Store)
+	// add | remove    Handler.AddScheduler(Name type) / RemoveScheduler(Name)
+	// cfgAdd | cfgDel POST /config {store_id} / DELETE /delete/{store} on the config handler of the running
+	//                 Sched (evict|grant) scheduler, what the HTTP API does once the scheduler exists; cfgAdd on a
+	//                 scheduler that is not running is the plain add, cfgDel is skipped then
+	Op    string `json:"op"`
 	Store uint64 `json:"store,omitempty"`
-	Name  string `json:"name,omitempty"` // add: scheduler type; remove: scheduler name
+	Name  string `json:"name,omitempty"`
+	Sched string `json:"sched,omitempty"`
+	// Fail n > 0: the n-th storage write (save/remove) issued by the handler call fails (cfgAdd, cfgDel)
+	Fail int `json:"fail,omitempty"`
 }
 
 // CoordCase is a program of admin operations on a cluster of Stores stores.
@@ -104,17 +117,76 @@ func genCoordCase(t *rapid.T) CoordCase {
 			return unknownStore
 		}
 	}
+	// a rough running model (every request assumed to do what it asks for) steers deletes towards stores
+	// that are probably listed, so that the handlers' delete and delete-last paths are reached often
+	lists := map[string]map[uint64]bool{"evict": {}, "grant": {}}
+	running := func() []string {
+		var out []string
+		for _, k := range []string{"evict", "grant"} {
+			if len(lists[k]) > 0 {
+				out = append(out, k)
+			}
+		}
+		return out
+	}
 	n := simkit.IntU(t, 2, 10, "nOps")
 	for i := 0; i < n; i++ {
+		fail := func() int {
+			if simkit.Pct(t, 40, "noFault") {
+				return 0
+			}
+			return simkit.IntU(t, 1, 3, "failNth")
+		}
 		switch k := simkit.IntU(t, 0, 99, "opKind"); {
-		case k < 30:
-			c.Ops = append(c.Ops, AdminOp{Op: "evict", Store: store()})
-		case k < 60:
-			c.Ops = append(c.Ops, AdminOp{Op: "grant", Store: store()})
-		case k < 75:
+		case k < 14:
+			op := AdminOp{Op: "evict", Store: store()}
+			if len(lists["evict"]) == 0 && op.Store != unknownStore && !lists["grant"][op.Store] {
+				lists["evict"][op.Store] = true
+			}
+			c.Ops = append(c.Ops, op)
+		case k < 28:
+			op := AdminOp{Op: "grant", Store: store()}
+			if len(lists["grant"]) == 0 && op.Store != unknownStore && !lists["evict"][op.Store] {
+				lists["grant"][op.Store] = true
+			}
+			c.Ops = append(c.Ops, op)
+		case k < 46:
+			op := AdminOp{Op: "cfgAdd", Sched: simkit.Pick(t, []string{"evict", "grant"}, "sched"), Store: store(), Fail: fail()}
+			other := "grant"
+			if op.Sched == "grant" {
+				other = "evict"
+			}
+			if op.Fail == 0 && op.Store != unknownStore && !lists[other][op.Store] {
+				lists[op.Sched][op.Store] = true
+			}
+			c.Ops = append(c.Ops, op)
+		case k < 68:
+			op := AdminOp{Op: "cfgDel", Sched: simkit.Pick(t, []string{"evict", "grant"}, "sched"), Store: store(), Fail: fail()}
+			if rs := running(); len(rs) > 0 && simkit.Pct(t, 85, "delListed") {
+				op.Sched = simkit.Pick(t, rs, "delSched")
+				var ids []uint64
+				for id := uint64(1); id <= coordStores; id++ {
+					if lists[op.Sched][id] {
+						ids = append(ids, id)
+					}
+				}
+				op.Store = simkit.Pick(t, ids, "delStore")
+			}
+			if op.Fail == 0 {
+				delete(lists[op.Sched], op.Store)
+			}
+			c.Ops = append(c.Ops, op)
+		case k < 78:
 			c.Ops = append(c.Ops, AdminOp{Op: "add", Name: simkit.Pick(t, addTypes, "addType")})
 		default:
-			c.Ops = append(c.Ops, AdminOp{Op: "remove", Name: simkit.Pick(t, removable, "removeName")})
+			op := AdminOp{Op: "remove", Name: simkit.Pick(t, removable, "removeName")}
+			switch op.Name {
+			case evictName:
+				lists["evict"] = map[uint64]bool{}
+			case grantName:
+				lists["grant"] = map[uint64]bool{}
+			}
+			c.Ops = append(c.Ops, op)
 		}
 	}
 	return c
@@ -219,6 +291,53 @@ func settle(rc *cluster.RaftCluster, m *coordModel, wait bool) string {
 	}
 }
 
+// callHandler sends one request to a scheduler's config handler.
+func callHandler(h http.Handler, method, path, body string) (int, string) {
+	req := httptest.NewRequest(method, path, strings.NewReader(body))
+	rec := httptest.NewRecorder()
+	h.ServeHTTP(rec, req)
+	return rec.Code, strings.TrimSpace(rec.Body.String())
+}
+
+// listed reads the stores a RUNNING evict-leader / grant-leader scheduler lists (GET /list of its handler).
+func listed(rc *cluster.RaftCluster, name string) (bool, map[uint64]bool, error) {
+	out := map[uint64]bool{}
+	if !hasScheduler(rc, name) {
+		return false, out, nil
+	}
+	h := rc.GetSchedulerHandlers()[name]
+	if h == nil {
+		return true, out, fmt.Errorf("%s is registered but has no handler", name)
+	}
+	code, body := callHandler(h, "GET", "/list", "")
+	var v struct {
+		Stores map[string]json.RawMessage `json:"store-id-ranges"`
+	}
+	if code != 200 || json.Unmarshal([]byte(body), &v) != nil {
+		return true, out, fmt.Errorf("GET /list of %s answered %d %s", name, code, body)
+	}
+	for k := range v.Stores {
+		id, err := strconv.ParseUint(k, 10, 64)
+		if err != nil {
+			return true, out, fmt.Errorf("GET /list of %s: bad store id %q", name, k)
+		}
+		out[id] = true
+	}
+	return true, out, nil
+}
+
+func sameSet(a, b map[uint64]bool) bool {
+	if len(a) != len(b) {
+		return false
+	}
+	for k := range a {
+		if !b[k] {
+			return false
+		}
+	}
+	return true
+}
+
 func runCoordCase(c CoordCase) (vkit.Info, error) {
 	var info vkit.Info
 	if c.Stores < 3 || c.Stores > coordStores || len(c.Peers) != coordRegions || len(c.Leaders) != coordRegions {
@@ -239,6 +358,8 @@ func runCoordCase(c CoordCase) (vkit.Info, error) {
 	rc := fx.Svr.GetRaftCluster()
 	h := fx.Svr.GetHandler()
 	rand.Seed(c.Seed)
+	fx.ClusterGate(nil)
+	defer fx.ClusterGate(nil)
 
 	// ---- reset: nothing of an earlier case is left
 	m := &coordModel{registered: map[string]bool{}, evict: map[uint64]bool{}, grant: map[uint64]bool{}}
@@ -278,13 +399,93 @@ func runCoordCase(c CoordCase) (vkit.Info, error) {
 	}
 	movers := coordMovers
 
-	refused, accepted, clash, transfers := 0, 0, 0, 0
+	refused, accepted, clash, transfers, faults, lastDeletes, skipped, halfRemoved := 0, 0, 0, 0, 0, 0, 0, 0
 	for i, op := range c.Ops {
 		var err error
 		wantErr := false
 		wait := false
 		what := ""
+		faulted := false
+		if op.Op == "cfgAdd" || op.Op == "cfgDel" {
+			name := evictName
+			if op.Sched == "grant" {
+				name = grantName
+			}
+			if !m.registered[name] {
+				if op.Op == "cfgDel" {
+					skipped++
+					continue
+				}
+				op = AdminOp{Op: op.Sched, Store: op.Store} // the API adds the scheduler when it does not exist yet
+			}
+		}
 		switch op.Op {
+		case "cfgAdd", "cfgDel":
+			name, list := evictName, m.evict
+			if op.Sched == "grant" {
+				name, list = grantName, m.grant
+			}
+			hd := rc.GetSchedulerHandlers()[name]
+			if hd == nil {
+				return info, fmt.Errorf("op %d: %s is registered but has no config handler", i, name)
+			}
+			writes, fired := 0, false
+			if op.Fail > 0 {
+				fx.ClusterGate(func(kind, key string) error {
+					writes++
+					if writes == op.Fail {
+						fired = true
+						return fmt.Errorf("injected: write %d (%s %s) fails", writes, kind, key)
+					}
+					return nil
+				})
+			}
+			var code int
+			var body string
+			if op.Op == "cfgAdd" {
+				what = fmt.Sprintf("POST %s/config {store_id: %d}", name, op.Store)
+				code, body = callHandler(hd, "POST", "/config", fmt.Sprintf(`{"store_id": %d}`, op.Store))
+			} else {
+				what = fmt.Sprintf("DELETE %s/delete/%d", name, op.Store)
+				code, body = callHandler(hd, "DELETE", fmt.Sprintf("/delete/%d", op.Store), "")
+			}
+			fx.ClusterGate(nil)
+			if fired {
+				if op.Op == "cfgDel" && op.Fail >= 2 {
+					halfRemoved++ // the scheduler's own config was saved, the removal of the scheduler failed
+				}
+				faults++
+				faulted = true
+				what += fmt.Sprintf(" with write %d of the call failing", op.Fail)
+			}
+			if code != 200 {
+				err = fmt.Errorf("HTTP %d %s", code, body)
+			}
+			if !faulted {
+				known := op.Store >= 1 && op.Store <= coordStores
+				wantCode := 200
+				if op.Op == "cfgAdd" {
+					if !(list[op.Store] || (known && !m.paused(op.Store))) {
+						wantCode = 500
+					} else {
+						list[op.Store] = true
+					}
+				} else {
+					if !list[op.Store] {
+						wantCode = 404
+					} else {
+						delete(list, op.Store)
+						if len(list) == 0 {
+							delete(m.registered, name) // the last store: the scheduler removes itself
+							lastDeletes++
+						}
+					}
+				}
+				if code != wantCode {
+					return info, fmt.Errorf("op %d (%s): answered %d %s, the model expects %d (evict-leader lists %v, grant-leader lists %v)",
+						i, what, code, body, wantCode, sortedU64(m.evict), sortedU64(m.grant))
+				}
+			}
 		case "evict", "grant":
 			name, list, other := evictName, m.evict, m.grant
 			if op.Op == "grant" {
@@ -341,10 +542,32 @@ func runCoordCase(c CoordCase) (vkit.Info, error) {
 		} else {
 			accepted++
 		}
-		// the scheduler list agrees with the model
+		// what is registered and which stores the two schedulers list: equal to the model after a call without
+		// injected fault; after a half-failed call whatever pd ended up with is taken over (the invariants
+		// below must hold in any case)
 		for _, n := range []string{evictName, grantName} {
-			if hasScheduler(rc, n) != m.registered[n] {
-				return info, fmt.Errorf("op %d (%s, answered %v): %s registered=%v, the model says %v", i, what, err, n, hasScheduler(rc, n), m.registered[n])
+			reg, ls, e := listed(rc, n)
+			if e != nil {
+				return info, fmt.Errorf("op %d (%s, answered %v): %v", i, what, err, e)
+			}
+			ml := &m.evict
+			if n == grantName {
+				ml = &m.grant
+			}
+			if faulted {
+				if reg {
+					m.registered[n] = true
+				} else {
+					delete(m.registered, n)
+				}
+				*ml = ls
+				continue
+			}
+			if reg != m.registered[n] {
+				return info, fmt.Errorf("op %d (%s, answered %v): %s registered=%v, the model says %v", i, what, err, n, reg, m.registered[n])
+			}
+			if !sameSet(ls, *ml) {
+				return info, fmt.Errorf("op %d (%s, answered %v): %s lists stores %v, the model says %v", i, what, err, n, sortedU64(ls), sortedU64(*ml))
 			}
 		}
 		// the pause flags agree with the registered schedulers
@@ -384,6 +607,10 @@ func runCoordCase(c CoordCase) (vkit.Info, error) {
 	info.ClassIf(clash > 0, "evict-and-grant-for-one-store")
 	info.ClassIf(transfers > 0, "leader-transfer-planned")
 	info.ClassIf(accepted >= 3, "accepted>=3")
+	info.ClassIf(faults > 0, "storage-write-failed-in-handler")
+	info.ClassIf(lastDeletes > 0, "last-store-deleted")
+	info.ClassIf(halfRemoved > 0, "last-store-delete-failed-after-config-saved")
+	info.ClassIf(skipped > 0, "op-skipped")
 	info.Class(fmt.Sprintf("stores=%d", c.Stores))
 	return info, nil
 }
